@@ -718,7 +718,21 @@ func checkC16(c *Ctx, r *Report) {
 				if isField(st.Addr, pkgDomain, "Endpoint", fld) {
 					key := fname(lf) + ":" + fld
 					if call, ok := st.Val.(*ssa.Call); ok && describeCall(&call.Call).Name == "ResolveURLPath" {
-						r.OK("C16-R4", key, in.Pos(), "resolved with util.ResolveURLPath against the endpoint URL")
+						// … against the endpoint URL as configured: the base operand is the parsed URL's String() or the
+						// configured string itself, not a string some helper derived from it
+						base := stripConv(call.Call.Args[0])
+						okBase := false
+						if bc, isCall := base.(*ssa.Call); isCall {
+							ci := describeCall(&bc.Call)
+							okBase = ci.Pkg == "net/url" && ci.Recv == "URL" && ci.Name == "String"
+						} else if mentionsField(base, "internal/config", "EndpointConfig", "URL", 2) {
+							okBase = true
+						}
+						if okBase {
+							r.OK("C16-R4", key, in.Pos(), "resolved with util.ResolveURLPath against the endpoint URL")
+						} else {
+							r.Bad("C16-R4", key, in.Pos(), "the base the configured path is resolved against is not the endpoint's URL as configured (its String(), or the configured string) but a string derived from it: trimming or rewriting the base changes the host, port or base path the health check / model discovery connects to")
+						}
 					} else {
 						r.Bad("C16-R4", key, in.Pos(), "configured relative path is not resolved under the endpoint's base path with util.ResolveURLPath")
 					}
@@ -785,6 +799,9 @@ func checkC16(c *Ctx, r *Report) {
 	addMutants(
 		Mutant{Prop: "C16", Name: "host-from-request", File: "internal/adapter/proxy/common/url_builder.go", Rule: "C16-R1", Canary: true,
 			Old: "		u := *endpoint.URL\n		u.Path = targetPath\n", New: "		u := *endpoint.URL\n		u.Path = targetPath\n		if r.URL.Host != \"\" {\n			u.Host = r.URL.Host\n		}\n"},
+		Mutant{Prop: "C16", Name: "default-paths-resolved-against-trimmed-base", File: "internal/adapter/discovery/repository.go", Rule: "C16-R4",
+			Old: "		modelURLString := util.ResolveURLPath(urlString, modelPath)\n", New: "		modelURLString := util.ResolveURLPath(strings.TrimRight(urlString, \"/v1\"), modelPath)\n",
+			Edits: []Edit{{"internal/adapter/discovery/repository.go", "	\"net/url\"\n", "	\"net/url\"\n	\"strings\"\n"}}},
 		Mutant{Prop: "C16", Name: "preserve-path-skips-base-on-same-prefix", File: "internal/adapter/proxy/common/url_builder.go", Rule: "C16-R10",
 			Old: "		u := *endpoint.URL\n		u.Path = joined\n", New: "		if strings.HasPrefix(targetPath, endpoint.URL.Path) {\n			joined = targetPath\n		}\n		u := *endpoint.URL\n		u.Path = joined\n"},
 		Mutant{Prop: "C16", Name: "query-dropped", File: "internal/adapter/proxy/common/url_builder.go", Rule: "C16-R3",
